@@ -508,6 +508,40 @@ func runC09(seed int64, n int, tier string, outDir string) (*Report, error) {
 		}
 	}
 
+	// ---- 4a. sensitivity, directed: every compared property of the object core on every struct kind, every
+	//          text variant (one value, other tag, only a later entry differs, three values), set -> different set
+	for ki := 0; ki < 13; ki++ {
+		for _, f := range c09CoreFields {
+			base := reflect.New(structTypes[ki])
+			base.Elem().FieldByName("ID").SetString("https://example.com/directed")
+			if ts := typeByKind[structTypes[ki].Name()]; len(ts) > 0 {
+				base.Elem().FieldByName("Type").SetString(string(ts[len(ts)-1]))
+			}
+			x := base.Interface().(ap.Item)
+			ft := base.Elem().FieldByName(f).Type()
+			variants := 1
+			if ft == tNlv {
+				variants = 4
+			}
+			for v := 0; v < variants; v++ {
+				va, vb := c09TwoValues(g, ft)
+				a, b := c09With(x, f, va), c09With(x, f, vb)
+				rab, pab, mab := c09Eq(a, b)
+				rba, pba, mba := c09Eq(b, a)
+				rep.Evaluations += 2
+				rep.Count("sensitive:directed")
+				if pab || rab {
+					violate("ItemsEqual(x, x with "+f+" changed)", a, b, "false", show(rab, pab, mab), "")
+				}
+				if pba || rba {
+					violate("ItemsEqual(x with "+f+" changed, x)", b, a, "false", show(rba, pba, mba), "")
+				}
+				if (ki+v)%5 == 0 {
+					emit(a, b, fmt.Sprintf("directed sensitive %s.%s variant %d", structTypes[ki].Name(), f, v))
+				}
+			}
+		}
+	}
 	// ---- 4. sensitivity: one core property (or, for a transitive activity, one activity property) changed
 	for i := 0; i < n/2; i++ {
 		o := c09Opts()
